@@ -1021,6 +1021,18 @@ pub mod rt {
     }
   }
 
+  /// scheduling point that exists only under a dictated schedule with entries of other tasks still to come
+  /// (before a release, before a condvar wait gives up its mutex): without one nothing changes
+  fn forced_point(mut g: ::std::sync::MutexGuard<'static, State>, me: usize) -> ::std::sync::MutexGuard<'static, State> {
+    if g.abort.is_none() && !::std::thread::panicking() && me < g.tasks.len() && !g.tasks[me].finished {
+      let pending_forced = g.cfg.forced_order.iter().any(|(t, tidx)| *t < g.tasks.len() && *t != me && !g.tasks[*t].finished && *tidx >= g.tasks[*t].nev);
+      if pending_forced {
+        g = reschedule(g, me, false);
+      }
+    }
+    g
+  }
+
   pub fn cv_wait(cv: ObjId, mutex: ObjId, site: Site) {
     let me = current_task();
     if me == usize::MAX {
@@ -1032,6 +1044,7 @@ pub mod rt {
     }
     let s = site_str(site);
     g.tasks[me].site = s.clone();
+    g = forced_point(g, me);
     // release the mutex
     if let Some(l) = g.locks.get_mut(&mutex) {
       l.writer = None;
@@ -1067,6 +1080,7 @@ pub mod rt {
     }
     let s = site_str(site);
     g.tasks[me].site = s.clone();
+    g = forced_point(g, me);
     if let Some(l) = g.locks.get_mut(&mutex) {
       l.writer = None;
     }
